@@ -790,12 +790,12 @@ class Container:
             ratio = volume_to_transfer / source_container.volume if source_container.volume else 0
 
         elif unit == 'g':
-            mass_to_transfer = round(quantity_to_transfer, config.internal_precision)
+            mass_to_transfer = quantity_to_transfer
             total_mass = 0
             for substance, amount in source_container.contents.items():
                 source_unit = 'U' if substance.is_enzyme() else config.moles_storage_unit
                 total_mass += Unit.convert_from(substance, amount, source_unit, "g")
-            if mass_to_transfer > round(total_mass, config.internal_precision):
+            if round(mass_to_transfer, config.internal_precision) > round(total_mass, config.internal_precision):
                 raise ValueError(f"Not enough mixture left in source container ({source_container.name}). " +
                                  f"Only {total_mass} g available, {mass_to_transfer} g needed.")
             ratio = mass_to_transfer / total_mass if total_mass else 0
